@@ -9,6 +9,7 @@ Import ListNotations.
 Open Scope N_scope.
 
 Definition SLASH : N := 47.
+Definition SEP : N := 124.               (* '|' between address and agent in who() *)
 
 Record req := { cookie : option str;   (* value of the session cookie, if presented *)
                 ip : str;              (* request.remote.ip *)
@@ -35,7 +36,8 @@ Fixpoint del_key (k : str) (s : store) : store :=
 Section Session.
   Variable sha : str -> str.           (* sha1(s.encode('utf-8')).hexdigest() *)
 
-  Definition who (r : req) : str := sha (ip r ++ agent r).
+  (* with fixes/C20_session-fingerprint-separator.patch: f'{ip}|{agent}' *)
+  Definition who (r : req) : str := sha (ip r ++ SEP :: agent r).
 
   (* create_session with uuid4().hex = u *)
   Definition create (u : str) (r : req) : str := u ++ SLASH :: who r.
